@@ -1446,6 +1446,25 @@ def m_str_find(I, st, call):
     return [(s0, mk_none(dt)), (st, mk_option(I, i, dt))]
 
 
+@model("core::str::<impl str>::split_once")
+def m_split_once(I, st, call):
+    """s.split_once(c) for a one-byte (ASCII) character: None, or (s[..i], s[i+1..]) with i the first occurrence"""
+    s = as_slice(I, st, call.args[0], call.arg_tys[0])
+    pat = call.args[1]
+    if s is None or not (isinstance(pat, IntV) and pat.aff.is_const() and pat.aff.c < 0x80):
+        return None
+    dt = call.dest_ty
+    s0 = st.copy()
+    i = I.fresh_int(st, "found", USIZE, 0, ISIZE_MAX)
+    st.add_fact(s.len - i.aff - 1)
+    I.str_boundaries.setdefault(s.base, set()).add(s.off + i.aff)
+    I.str_boundaries[s.base].add(s.off + i.aff + 1)
+    I.syminfo[i.aff.t[0][0]] = ("found_ascii", s.base, s.off, pat.aff.c, "find")
+    a = SliceV(i.aff, s.base, s.off)
+    b = SliceV(s.len - i.aff - 1, s.base, s.off + i.aff + 1)
+    return [(s0, mk_none(dt)), (st, mk_option(I, StructV([a, b]), dt))]
+
+
 @model("core::str::<impl str>::starts_with", "core::str::<impl str>::ends_with", "core::str::<impl str>::contains")
 def m_starts_with(I, st, call):
     s = as_slice(I, st, call.args[0], call.arg_tys[0])
